@@ -205,12 +205,7 @@ def selector_prune(fx, fn, is_sel, assume):
         if not is_sel(subj):
             continue
         t = fn.term(b)
-        listed = set(v for (v, _) in t["targets"])
-        for (v, tgt) in t["targets"]:
-            if v != want:
-                removed.append((b, tgt))
-        if want in listed:
-            removed.append((b, t["otherwise"]))
+        removed.extend(common.contradicted_edges(t, b, (want,)))
     if assume == "false":
         for (b, tt, ft, c) in bool_switches(fn):
             c = peel(c)
@@ -338,12 +333,7 @@ def h4(ctx, fx, H):
             if s.kind == "param" and s.d["idx"] in val:
                 want = 1 if val[s.d["idx"]] else 0
                 t = P.term(b)
-                listed = set(v for (v, _) in t["targets"])
-                for (v, tgt) in t["targets"]:
-                    if v != want:
-                        rem.append((b, tgt))
-                if want in listed:
-                    rem.append((b, t["otherwise"]))
+                rem.extend(common.contradicted_edges(t, b, (want,)))
         # selection failure edges are irrelevant; reachability from entry
         r = cfg.reachable(P, [0], removed_edges=rem)
         what = "valuation(%s)" % ",".join("%s=%s" % (k, "Some" if v else "None") for k, v in zip(("nonce", "aud", "key"), combo))
